@@ -16,12 +16,14 @@ for d in sorted((ROOT / "seeded").iterdir()):
             rep = x.get("replay") or {}
             kind = "failing input" if x["exit"] == 1 and "no-failing-input-found" not in x["verdict"] else ("no-failing-input-found" if x["exit"] == 1 else "MISSED")
             verdicts.append(f"{chk}: {kind}" + (f" ({rep.get('family')})" if rep.get("family") else ""))
+    if m.get("obsolete"):
+        verdicts = ["n/a: no longer a breaking change on the current tree (see history)"]
     what = (m.get("what") or "").replace("\n", " ")
     rows.append(f"| {d.name} | {', '.join(m.get('files') or []) if isinstance(m.get('files'), list) else m.get('files')} | {what[:150]} | "
                 f"{'yes' if c.get('confirmed') else ('?' if not c else 'NO')} | {'; '.join(verdicts)} | {m.get('history', '')} |")
 tot = len(rows)
 missed_first = sum(1 for r in rows if "missed" in r.split("|")[-2] or "first only" in r.split("|")[-2] or "first caught only" in r.split("|")[-2])
-now_missed = sum(1 for r in rows if "MISSED" in r)
+now_missed = sum(1 for r in rows if "MISSED" in r and "n/a:" not in r and "failing input" not in r.split("|")[-3] and "no-failing-input-found" not in r.split("|")[-3])
 nofail = sum(1 for r in rows if "no-failing-input-found" in r.split("|")[-3])
 print(f"SUMMARY: {tot} kept changes; {tot - missed_first} were caught by the check as it stood when the change arrived, {missed_first} were missed or caught only "
       f"as `no-failing-input-found` at first and are caught after the strengthening named in the last column; as of this commit {now_missed} are missed and "
